@@ -26,7 +26,7 @@ ASSUMPTIONS = [
 ]
 REQUIRED_CLASSES = ["multi-line", "last-line-full", "last-line-short", "single-line", "description", "interval-crosses-break", "interval-ends-at-break",
                     "interval-starts-at-break", "supplied-index", "library-index", "fast-path-label-order-differs", "no-final-newline"]
-BOUNDS = {"quick": "exhaustive: 1 record L<=7 W<=8 and 2 records L<=4 W<=5, every interval; 450 sampled files; one 5.6 MB file",
+BOUNDS = {"quick": "exhaustive: 1 record L<=7 W<=8 and 2 records L<=4 W<=5, every interval; 450 sampled files; one 5.6 MB file (2 read chunks of create_index) and one 16 MB file (4 read chunks)",
           "thorough": "exhaustive: N<=2 L<=7 W<=8 and N=3 L<=4 W<=4; 2500 sampled files; one 5.2 MB file"}
 BUDGET_S = {"quick": 200, "thorough": 1500}
 
@@ -213,19 +213,21 @@ def task_sampled(stats, known_open, n, seed, Lmax, Wmax):
     core.run_hypothesis(sys.modules[__name__], sampled_case(Lmax, Wmax), stats, known_open, max_examples=n, seed=seed)
 
 
-def task_big(stats, known_open):
-    """One file larger than the five-million-byte chunk of create_index."""
+def task_big(stats, known_open, n_records=7):
+    """One file larger than the five-million-byte chunk of create_index: 7 records of 0.8 MB span two chunks, 20 records span four
+    (offsets of the third and later chunks need the sizes of all earlier chunks, not only of the previous one)."""
     import sys
     recs = []
-    for i in range(7):
-        w = [60, 70, 80, 61, 100, 50, 7][i]
+    widths = [60, 70, 80, 61, 100, 50, 7]
+    for i in range(n_records):
+        w = widths[i % 7] + (i // 7)
         L = 800_000 + i * 1013
         unit = seq_of(997, i)
         recs.append(["big%d" % i, "", (unit * (L // 997 + 1))[:L], w])
-    ivs = [[i, a, b] for i in range(7) for a, b in ((0, 10), (59, 61), (799_990, 800_000 + i * 1013), (400_000, 400_123))]
-    case = {"records": recs, "intervals": ivs, "index": "library", "final_nl": True, "label_order": [6, 5, 4, 3, 2, 1, 0]}
+    ivs = [[i, a, b] for i in range(n_records) for a, b in ((0, 10), (59, 61), (799_990, 800_000 + i * 1013), (400_000, 400_123))]
+    case = {"records": recs, "intervals": ivs, "index": "library", "final_nl": True, "label_order": list(range(n_records))[::-1]}
     core.run_case(sys.modules[__name__], case, stats, known_open)
-    stats.exhaustive["big-file-5.6MB"] = True
+    stats.exhaustive["big-file-%d-records-of-0.8MB" % n_records] = True
 
 
 def tasks(tier, seed):
@@ -237,6 +239,7 @@ def tasks(tier, seed):
         for j in range(3):
             out.append(("task_sampled", dict(n=150, seed=seed * 100 + j, Lmax=300, Wmax=130)))
         out.append(("task_big", {}))
+        out.append(("task_big", {"n_records": 20}))
     else:
         out.append(("task_core", dict(nrec=1, Lmax=7, Wmax=8)))
         for o in range(8):
@@ -246,4 +249,6 @@ def tasks(tier, seed):
         for j in range(10):
             out.append(("task_sampled", dict(n=250, seed=seed * 100 + j, Lmax=400, Wmax=120)))
         out.append(("task_big", {}))
+        out.append(("task_big", {"n_records": 20}))
+        out.append(("task_big", {"n_records": 33}))
     return out
